@@ -376,3 +376,34 @@ macro_rules! defined_harness {
 
 defined_harness!(c15_pp_ifdef_defined_t, K::Ifdef, 3);
 defined_harness!(c15_pp_ifndef_defined_t, K::Ifndef, 3);
+
+
+/// fallback for the #define step when the symbolic query is out of reach on an edited tree:
+/// fully concrete kinds and macro name (`#define M`), widths symbolic
+#[kani::proof]
+#[kani::unwind(10)]
+#[kani::stub(crate::preprocessor::PreProcessor::error, crate::preprocessor::PreProcessor::verif_error_stub)]
+#[kani::stub(std::hash::RandomState::new, crate::verif_common::fixed_random_state)]
+#[kani::stub(crate::preprocessor::PreProcessor::define_macro, crate::preprocessor::PreProcessor::verif_define_stub)]
+fn c15c01c02_pp_define_s() {
+    unsafe {
+        G_DEFINES = 0;
+    }
+    let mut s = SymStream::any(2);
+    s.kinds[0] = K::Define;
+    s.kinds[1] = K::Id;
+    s.name_n[1] = false;
+    let mut p = PreProcessor::new(s);
+    let stubs_on = unsafe { crate::verif_common::G_STUBS_ON };
+    if !stubs_on {
+        p.macros.insert(EcoString::inline("Z"));
+    }
+    let kind = p.eat();
+    assert!(kind == K::PreProcessor && p.token_stream.pos == 2 && p.error.is_none(), "C15: `#define M` is one trivia token");
+    if stubs_on {
+        assert!(unsafe { G_DEFINES } == 1 && p.macros.is_empty(), "C15: an enabled #define defines its macro through define_macro and touches nothing else");
+    } else {
+        assert!(p.macros.contains("Z") && p.macros.contains("M") && p.macros.len() == 2, "C15: #define adds its macro and keeps earlier ones");
+    }
+    std::mem::forget(p);
+}
